@@ -461,7 +461,7 @@ fn configs(tier: Tier) -> Vec<(DnsCfg, usize)> {
         }
     } else {
         v.push((make_cfg_full("2q-staggered-A+A/mini", ns, &[a, ("de.c", T_A)], Alpha::Mini, Net::Ip, true), 48));
-        v.push((make_cfg_full("2q-staggered-A+A/reduced", ns, &[a, ("de.c", T_A)], Alpha::Reduced, Net::Ip, true), 6));
+        v.push((make_cfg_full("2q-staggered-A+A/reduced", ns, &[a, ("de.c", T_A)], Alpha::Reduced, Net::Ip, true), 5));
         v.push((make_cfg_full("1q-idle-gap-A/mini", ns, &[a], Alpha::Mini, Net::Ip, true), 48));
         v.push((make_cfg_full("1q-idle-gap-A/reduced", ns, &[a], Alpha::Reduced, Net::Ip, true), 5));
         if ns > 1 {
@@ -1807,6 +1807,13 @@ fn positive_controls(cfgs: &[(DnsCfg, usize)]) -> Vec<Value> {
         let base = base_spec(&c.0);
         let good = Ev::Resp(0, base);
         match c.0.net {
+            Net::Ip if c.0.n0 == 0 => {
+                // idle-gap configuration: 11 s without a poll, start_query, poll, good answer
+                rec(
+                    format!("{}: 11 s idle, start_query, good answer", c.0.label),
+                    drive(c, &[&|_, e| *e == Ev::StartNext(11_000), &move |_, e| *e == good]),
+                );
+            }
             Net::Ip => {
                 if c.0.alpha == Alpha::Mini {
                     continue;
